@@ -184,3 +184,19 @@ Example v1_vectors :
   (* the same 33-byte value is inlined under state version 0: 0x42 01 | 84 (33*4) | v33 *)
   enc blake2b_256 V0 (Leaf [0;1]%nat v33) = map n2b [66; 1; 132] ++ v33.
 Proof. vm_compute. repeat split; reflexivity. Qed.
+
+(* ---------- state version 1: a third-party node (round 4) ----------
+   /repo pkg/trie/inmemory/proof/proof_test.go, TestParachainHeaderStateProof, quotes a storage proof
+   taken from a live relay chain (Paras::Heads entry, state version 1): its first node is a LEAF WITH A
+   HASHED VALUE (header 0x36 = 001 10110: 22 nibbles) and its last item is the value itself.  Encoding the
+   leaf (that partial key, that value) under V1 with the encoder of the specification root reproduces the
+   node byte for byte: header variant, key packing and the 32-byte value hash agree with what a Substrate
+   node produced.  The bytes below are copied from the test file. *)
+Definition tp_leaf_key : list byte := map n2b [255; 111; 125; 70; 123; 135; 169; 232; 3; 0; 0]%N.
+Definition tp_value : list byte := map n2b [233; 2; 17; 106; 40; 17; 234; 170; 55; 47; 205; 140; 118; 155; 95; 67; 61; 57; 149; 135; 43; 33; 196; 104; 220; 252; 98; 112; 225; 249; 250; 7; 22; 126; 170; 76; 124; 0; 245; 249; 129; 192; 180; 218; 254; 60; 16; 41; 231; 15; 178; 144; 41; 79; 194; 31; 4; 1; 151; 172; 0; 242; 9; 219; 246; 89; 169; 123; 216; 63; 125; 195; 252; 66; 233; 133; 144; 94; 162; 49; 59; 37; 81; 183; 38; 146; 81; 14; 151; 68; 73; 59; 213; 37; 5; 94; 39; 226; 149; 148; 138; 17; 8; 6; 97; 117; 114; 97; 32; 146; 213; 92; 8; 0; 0; 0; 0; 5; 97; 117; 114; 97; 1; 1; 22; 253; 79; 237; 184; 236; 216; 235; 160; 217; 7; 183; 189; 83; 75; 38; 11; 192; 184; 106; 14; 154; 31; 216; 241; 140; 184; 94; 144; 115; 244; 66; 166; 169; 245; 70; 11; 251; 36; 67; 188; 230; 123; 143; 219; 161; 123; 189; 41; 39; 189; 173; 143; 198; 174; 2; 28; 3; 226; 200; 179; 227; 62; 137]%N.
+Definition tp_leaf_node : list byte := map n2b [54; 255; 111; 125; 70; 123; 135; 169; 232; 3; 0; 0; 33; 89; 15; 72; 177; 24; 145; 174; 225; 242; 129; 248; 86; 37; 111; 55; 162; 15; 138; 188; 93; 2; 116; 52; 248; 157; 210; 222; 202; 185; 34; 254]%N.
+Example v1_third_party_leaf :
+  length tp_value = 188%nat /\
+  enc blake2b_256 V1 (Leaf (key_le_to_nibbles tp_leaf_key) tp_value) = tp_leaf_node /\
+  enc blake2b_256 V0 (Leaf (key_le_to_nibbles tp_leaf_key) tp_value) <> tp_leaf_node.
+Proof. vm_compute. split; [reflexivity|]. split; [reflexivity|discriminate]. Qed.
